@@ -115,6 +115,54 @@ Proof.
 Qed.
 Print Assumptions C17_open_refuses.
 
+(* ---- the same refusal seen from a long-lived Tdf object (Access.v): somebody replaces its file by bytes that are
+   not a TDF file while no context is open.  Entering a context and every reader that provides its own context are
+   then refused, the object is left outside any context with its handle closed — so the NEXT call opens the file
+   again instead of answering from what an earlier context read — and nothing is written; once the TDF file is
+   back, the object works again. ---- *)
+From Model Require Import Access.
+
+Theorem C17_object_refuses_non_tdf : forall s c,
+  x_valid s = false -> x_inside s = false -> (c = Enter \/ c = Reader RAuto) ->
+  fst (a_step s c) = true /\
+  x_inside (snd (a_step s c)) = false /\ x_handle (snd (a_step s c)) = HClosed /\
+  x_mode (snd (a_step s c)) = RB /\ x_disk (snd (a_step s c)) = x_disk s /\
+  x_valid (snd (a_step s c)) = false.
+Proof.
+  intros [m i h d ga gw vl] c Hv Hi [-> | ->]; cbn in *; subst; cbn; repeat split.
+Qed.
+Print Assumptions C17_object_refuses_non_tdf.
+
+(* any number of refused calls in a row: each is refused on its own account *)
+Theorem C17_object_keeps_refusing : forall cs s,
+  x_valid s = false -> x_inside s = false -> Forall (fun c => c = Enter \/ c = Reader RAuto) cs ->
+  Forall (fun r => r = true) (snd (fold_left (fun '(s, out) c => (snd (a_step s c), fst (a_step s c) :: out)) cs (s, []) : astate * list bool))
+  /\ x_inside (a_run s cs) = false /\ x_disk (a_run s cs) = x_disk s.
+Proof.
+  intros cs. assert (G : forall s out, x_valid s = false -> x_inside s = false ->
+    Forall (fun c => c = Enter \/ c = Reader RAuto) cs -> Forall (fun r => r = true) out ->
+    Forall (fun r => r = true) (snd (fold_left (fun '(s, out) c => (snd (a_step s c), fst (a_step s c) :: out)) cs (s, out) : astate * list bool))
+    /\ x_inside (a_run s cs) = false /\ x_disk (a_run s cs) = x_disk s).
+  { induction cs as [|c cs IH]; intros s out Hv Hi Hc Ho; cbn [fold_left a_run snd]; [repeat split; assumption|].
+    inversion Hc as [|? ? Hc1 Hc2]; subst.
+    destruct (C17_object_refuses_non_tdf s c Hv Hi Hc1) as [R [I [_ [_ [D V]]]]].
+    destruct (IH (snd (a_step s c)) (fst (a_step s c) :: out) V I Hc2) as [A [B C]]; [constructor; assumption|].
+    repeat split; [exact A|exact B|]. unfold a_run in *. rewrite C. exact D. }
+  intros s Hv Hi Hc. apply G; try assumption. constructor.
+Qed.
+Print Assumptions C17_object_keeps_refusing.
+
+(* an open context is always on a TDF file (the file is not swapped under an open handle), and a refusal leaves
+   nothing behind: with the file back, the next context is entered normally *)
+Theorem C17_object_recovers : forall s,
+  x_inside s = false ->
+  let s1 := snd (a_step (snd (a_step s Clobber)) Enter) in
+  let s2 := snd (a_step s1 Restore) in
+  fst (a_step s2 Enter) = false /\ x_inside (snd (a_step s2 Enter)) = true /\
+  fst (a_step s2 (Reader RAuto)) = false.
+Proof. intros [m i h d ga gw vl] Hi. cbn in *. subst. cbn. repeat split. Qed.
+Print Assumptions C17_object_recovers.
+
 Example C17_example :
   let f := [(1, [1; 2; 3]); (2, [])] in
   fs_new f 1 0 = (Raised EFileExists, f) /\ fs_new f 2 0 = (Raised EFileExists, f) /\
